@@ -1279,6 +1279,58 @@ fn build_lattice(c: &SwarmCase, par: u8, base: u8, flip: bool, noise: &[u8]) -> 
         None
     }
 }
+/// A balanced lattice (bands on ranks 2-5) with a smothered-mate gadget in a far corner: the side to
+/// move mates in one with a knight, and every other root move starts a capture search of seconds.
+/// Mating side = White (colours swapped when `flip`). Kept only if the oracle confirms the mate.
+pub fn build_lattice_with_mate(par: u8, flip: bool, right_corner: bool, noise: &[u8], mover_king_file: u8) -> Option<Pos> {
+    let mut p = Pos::empty();
+    let mut i = 0;
+    // white band ranks 2,3 (index 1,2), black band ranks 4,5 (index 3,4)
+    for band in 0..4u8 {
+        let r = 1 + band;
+        let white = band < 2;
+        for f in 0..8u8 {
+            if (f + r + par) % 2 != 0 {
+                continue;
+            }
+            let n = noise.get(i).copied().unwrap_or(255);
+            i += 1;
+            if n < 8 {
+                continue;
+            }
+            p.sq[(r * 8 + f) as usize] = Some((if white { Color::White } else { Color::Black }, if n < 21 { Kind::Rook } else { Kind::Queen }));
+        }
+    }
+    // gadget on ranks 6-8: king in the corner, rook beside it, two pawns in front, knight ready to jump
+    let m = |f: u8| if right_corner { f } else { 7 - f };
+    let sq = |f: u8, r: u8| (r * 8 + m(f)) as usize;
+    p.sq[sq(7, 7)] = Some((Color::Black, Kind::King));
+    p.sq[sq(6, 7)] = Some((Color::Black, Kind::Rook));
+    p.sq[sq(6, 6)] = Some((Color::Black, Kind::Pawn));
+    p.sq[sq(7, 6)] = Some((Color::Black, Kind::Pawn));
+    p.sq[sq(7, 5)] = Some((Color::White, Kind::Knight)); // h6 -> f7 mate
+    let f7 = sq(5, 6) as u8;
+    // no black man may attack the mating square, and the files / diagonals towards the corner stay shut
+    for s in 0..64u8 {
+        if let Some((Color::Black, k)) = p.sq[s as usize] {
+            if k != Kind::King && k != Kind::Pawn && p.man_attacks(s, (Color::Black, k), f7) {
+                p.sq[s as usize] = None;
+            }
+        }
+    }
+    let wkf = if (right_corner && mover_king_file % 8 >= 5) || (!right_corner && mover_king_file % 8 <= 2) { 3 } else { mover_king_file % 8 };
+    p.sq[wkf as usize] = Some((Color::White, Kind::King));
+    p.stm = Color::White;
+    // mirror() flips ranks, colours and the side to move (White to move becomes Black to move)
+    let q = if flip { p.mirror() } else { p };
+    if !q.is_legal_position() || q.in_check(q.stm) {
+        return None;
+    }
+    if !q.legal_moves().iter().any(|mv| q.apply(mv).is_checkmate()) {
+        return None;
+    }
+    Some(q)
+}
 pub fn build_swarm(c: &SwarmCase) -> Option<Pos> {
     if let Some((par, base, flip, noise)) = &c.lattice {
         return build_lattice(c, *par, *base, *flip, noise);
@@ -1400,11 +1452,21 @@ pub fn run_c08_long(ctx: &mut Ctx) {
     run_prop(
         ctx,
         "slices_of_seconds_answered_on_time",
-        || (gamelike_walk_strategy(30), 0u16..2000, 0u8..3),
+        || (gamelike_walk_strategy(30), 0u16..2000, 0u8..3, (0u8..2, any::<bool>(), any::<bool>(), proptest::collection::vec(any::<u8>(), 16..=16), 0u8..8), 0u8..3),
         t.pick(8, 64),
-        |(walk, extra, form), st| {
+        |(walk, extra, form, lat, kind), st| {
             let ps = PosSpec { walk: walk.clone(), form: 1 };
-            let Some((ptext, p)) = position_text(&ps) else { return Ok(()) };
+            let Some((mut ptext, mut p)) = position_text(&ps) else { return Ok(()) };
+            // two cases in three: a balanced lattice with a mate in one on the board - the search finds
+            // the mate, spends seconds on the capture trees of the other root moves, runs through the
+            // remaining iterations at once and ends long before the slice does
+            if *kind < 2 {
+                if let Some(q) = build_lattice_with_mate(lat.0, lat.1, lat.2, &lat.3, lat.4) {
+                    ptext = format!("position fen {}", q.fen());
+                    p = q;
+                    st.label("capture_heavy_position_with_a_mate_in_one");
+                }
+            }
             if p.legal_moves().is_empty() {
                 return Ok(());
             }
@@ -1423,9 +1485,10 @@ pub fn run_c08_long(ctx: &mut Ctx) {
             st.nontrivial(fp(&(&ptext, &go)));
             Ok(())
         },
-        |(walk, extra, form)| {
+        |(walk, extra, form, lat, kind)| {
             let ps = PosSpec { walk: walk.clone(), form: 1 };
-            match position_text(&ps) {
+            let swapped = if *kind < 2 { build_lattice_with_mate(lat.0, lat.1, lat.2, &lat.3, lat.4).map(|q| (format!("position fen {}", q.fen()), q)) } else { None };
+            match swapped.or_else(|| position_text(&ps)) {
                 Some((ptext, _)) => {
                     let slice = 6_000 + *extra as u64;
                     let go = match form {
